@@ -15,19 +15,29 @@ BOUNDS = ('Images 1..4 x 1..3 (all residues of width mod 4), alpha on/off, all p
           'BMP: save->decode->load, every prefix length symbolic; input variants 24/32-bit BI_RGB, BI_BITFIELDS with all 24 byte-mask permutations, top-down/bottom-up, '
           'info header 40/108/124 bytes, pixel-data gap 0/2. BMP header arithmetic: width symbolic in [1,32768], height cells. '
           'PPM: P6 load for 8/16/32/64-bit samples with every prefix inside the samples symbolic and every prefix inside the header as concrete cells; P5 gray load 8/16/32/64-bit; '
-          'P6/P7 save bytes == canonical file (exact Netpbm header text + raw samples). PNG: framing for 1..3 x 1..3. Raw constructor: every file length.')
+          'P6/P7 save bytes == canonical file (exact Netpbm header text + raw samples). '
+          'P7 (PAM) input: TUPLTYPE RGB / RGB_ALPHA / GRAYSCALE / GRAYSCALE_ALPHA x (1,1) (2,1) (1,2) (2,2) x 8/16-bit samples (32/64-bit for the 2-wide images), header text concrete per cell '
+          '(canonical line order, plus the reverse order for each tuple type), MAXVAL = 2^n-1 plus the channel-width thresholds 1, 256, 65536, 2^32-1, 2^32; all samples symbolic, ONE symbolic checked byte; '
+          'every prefix inside the samples symbolic, prefixes inside the header as concrete cells (every 4th byte of the 71-byte GRAYSCALE_ALPHA header and its last three); P7 save->load identity in one query for (1,1) (2,1) (1,2) (2,2), 8..64-bit. '
+          'Gray expansion kernel expand_gray_samples_in_place<uint8/16/32/64_t>: 1..4 pixels, with/without alpha, all sample values, every output sample checked. '
+          'PNG: framing for 1..3 x 1..3. Raw constructor: every file length.')
 STUBS = ['stdio over a harness byte array (props/C06/c06.h): fread fwrite fgetc fgets feof fileno fseek __isoc99_fscanf("%zu"/"%lu") snprintf(literals,%zu,%lu) - libc contracts, exact decimal conversion; '
          'fread deviation: on a short read the unread tail of the caller buffer receives stale bytes (never read: freadx throws)',
-         'strtoull (base 10, exact) for std::stoull',
+         'strtoull (base 10, exact incl. overflow) for std::stoull in the P7 header parser (generated C only; the replay build calls libc)',
+         'P7 unit only: operator new is a deterministic bump allocator over 12 static zero-initialised 320-byte blocks (VERIF_NEW_POOL; a larger request or a 13th allocation is a reported bound failure); '
+         'malloc (the pixel buffer) stays CBMC\'s exact-size malloc with arbitrary initial content',
          'zlib compressBound / compress2 / crc32: deterministic stand-ins that record their input (PNG harness only)',
          'phosg::string_printf cut to "" in the generated C (exception messages only); io_error(int) constructor cut (unreachable: fread never returns a negative count)',
          'engine/shim unordered_map (BI_BITFIELDS mask table, 4 entries) and deque',
          'exception objects come from a static pool (VERIF_EXC_POOL) so that cbmc --memory-leak-check sees only program allocations']
-OUTSIDE = ['P7 (PAM) *input*: the text header goes through phosg::fgets + std::string substr/stoull per line; no verdict at the smallest cell (1x1, 517k symex steps, >8 GB) - P7 RGB_ALPHA and GRAYSCALE_ALPHA decode are therefore not decided by the solver (the gray+alpha source index is repaired by the same patch as P5, see NOTES.md)',
+OUTSIDE = ['P7 (PAM) input with a header the solver does not see as concrete text: symbolic header bytes / symbolic dimensions, header lines longer than 255 bytes (second block of phosg::fgets), '
+           'comment (#) and empty header lines (phosg rejects them: "unknown header command" - not a supported variant), DEPTH inconsistent with TUPLTYPE (phosg ignores DEPTH), images above 2x2 for P7',
            'that the deflate stream inflates to the scan lines and that zlib crc32 is the PNG CRC (zlib is not encoded); independent-decoder agreement for PNG beyond framing',
            'dimensions above 4x3; 16-bit and wider samples are compared in host byte order (phosg writes and reads them raw; Netpbm defines big-endian) - see NOTES.md',
            'malformed (not merely truncated) headers, e.g. BMP info-header size < 4 (observation in NOTES.md)']
-ASSUMPTIONS = ['x86-64 little-endian host', 'heap allocation never fails']
+ASSUMPTIONS = ['x86-64 little-endian host', 'heap allocation never fails',
+               'P7 unit (h_p7.c): operator-new memory reads as zero until written and a block is never reused (static pool): behaviour that depends on reading uninitialised '
+               'std::string storage or on using a std::string block after operator delete is not explored there (the replay build runs under ASan); the malloc\'ed pixel buffer is not affected']
 FLAGS = ['--memory-leak-check', '--max-field-sensitivity-array-size', '256']
 P7FLAGS = ['--memory-leak-check', '--max-field-sensitivity-array-size', '512']
 # the shim unordered_map(initializer_list) constructor of the 4-entry mask table: nested slot-search loops, 4 x 4 iterations
@@ -137,7 +147,7 @@ def queries(tier):
         qs += [png(2, 2, 0), png(1, 2, 1), raw(2, 2, 0)]
         qs += [gray(8, 1), gray(16, 1), gray(64, 1), gray(8, 0), gray(32, 0)]
         qs += [p7(3, 2, 1, 8), p7(3, 1, 2, 16), p7(3, 2, 2, 8), p7(2, 2, 2, 8), p7(2, 2, 1, 16), p7(1, 2, 1, 8), p7(1, 1, 2, 16), p7(0, 2, 2, 8), p7(0, 1, 1, 16),
-               p7(3, 2, 1, 8, order=1), p7(3, 2, 1, 8, tlen=40), p7(1, 2, 1, 8, tlen=2), p7(2, 1, 1, 16, maxval=256), p7(1, 2, 1, 8, rt=True), p7(1, 1, 1, 16, rt=True)]
+               p7(3, 2, 1, 8, order=1), p7(3, 2, 1, 8, tlen=40), p7(3, 2, 1, 8, tlen=70), p7(2, 1, 1, 16, maxval=256), p7(1, 2, 1, 8, rt=True), p7(1, 1, 1, 16, rt=True)]
     else:
         for W in (1, 2, 3, 4):
             for H in (1, 2, 3):
@@ -175,10 +185,10 @@ def queries(tier):
                 for CW in (8, 16) + ((32, 64) if W == 2 else ()):
                     qs.append(p7(TT, W, H, CW))
             qs.append(p7(TT, 2, 1, 8, order=1))
-        # "P7\nWIDTH 2\nHEIGHT 1\nDEPTH 2\nMAXVAL 255\nTUPLTYPE GRAYSCALE_ALPHA\nENDHDR\n" is 68 bytes, then 4 sample bytes
-        for cut in range(0, 70, 3):
+        # "P7\nWIDTH 2\nHEIGHT 1\nDEPTH 2\nMAXVAL 255\nTUPLTYPE GRAYSCALE_ALPHA\nENDHDR\n" is 71 bytes, then 4 sample bytes
+        for cut in list(range(0, 69, 4)) + [69, 70, 71, 72, 74]:   # 70 = header without its final newline
             qs.append(p7(3, 2, 1, 8, tlen=cut))
-        for cut in (0, 2, 3, 11, 12, 31, 43, 60, 61):   # "... RGB\nENDHDR\n" is 62 bytes
+        for cut in (0, 2, 3, 11, 12, 31, 43, 60, 61):   # "P7\nWIDTH 1\nHEIGHT 1\nDEPTH 3\nMAXVAL 65535\nTUPLTYPE RGB\nENDHDR\n" is 61 bytes; 60 = without the final newline
             qs.append(p7(0, 1, 1, 16, tlen=cut))
         qs += [p7(2, 2, 1, 8, maxval=1), p7(3, 2, 1, 16, maxval=256), p7(0, 2, 1, 32, maxval=65536), p7(1, 1, 1, 32, maxval=4294967295), p7(3, 1, 2, 64, maxval=4294967296)]
         for (W, H, CW) in ((1, 1, 8), (2, 1, 8), (1, 2, 16), (2, 2, 8), (1, 1, 32), (2, 1, 64)):
